@@ -368,8 +368,23 @@ func c12DiscoverySeg(kind, prefix, seg string) (clause, detail string) {
 	h, _ := c12Handler(kind, prefix, l)
 	w := &harness.Wire{Handler: h}
 	ctx := context.Background()
+	// the endpoint: plain, or reached over TLS on another port (every request of the chain, redirects included,
+	// must go to that very scheme and authority)
+	ep := "http://h"
+	if (len(prefix)+len(seg))%2 == 1 {
+		ep = "https://secure.example:8443"
+	}
+	defer func() {
+		if clause == "" {
+			for _, t := range w.Targets {
+				if t != ep {
+					clause, detail = "discovery-left-the-endpoint", fmt.Sprintf("a request of the chain went to %s, the endpoint is %s", t, ep)
+				}
+			}
+		}
+	}()
 	if kind == "caldav" {
-		cl, err := caldav.NewClient(w.Client(), "http://h/.well-known/caldav")
+		cl, err := caldav.NewClient(w.Client(), ep+"/.well-known/caldav")
 		if err != nil {
 			return "client", err.Error()
 		}
@@ -395,7 +410,7 @@ func c12DiscoverySeg(kind, prefix, seg string) (clause, detail string) {
 		}
 		return "", ""
 	}
-	cl, err := carddav.NewClient(w.Client(), "http://h/.well-known/carddav")
+	cl, err := carddav.NewClient(w.Client(), ep+"/.well-known/carddav")
 	if err != nil {
 		return "client", err.Error()
 	}
@@ -579,7 +594,9 @@ func init() {
 					// (the no-slash spellings of the own principal and home set are NOT foreign: "with or without a
 					// trailing slash" - the first session had listed them here, pinning what the code did)
 					// foreign principals / home sets whose names extend or are extended by the current user's
-					l.P + "/u2/", l.P + "/u-admin/", l.P + "/u.old", l.P + "/u/c2/", l.P + "/u/c.bak/", l.P + "/u2/c/"} {
+					l.P + "/u2/", l.P + "/u-admin/", l.P + "/u.old", l.P + "/u/c2/", l.P + "/u/c.bak/", l.P + "/u2/c/",
+					// names that differ from the current user's only in letter case or by a compatibility character
+					l.P + "/U/", l.P + "/U", l.P + "/U/c/", l.P + "/u/C/", l.P + "/U/C/"} {
 					for _, d := range []string{"0", "1", "infinity"} {
 						exs = append(exs, ex{kind, pf, t, d})
 					}
